@@ -156,9 +156,13 @@ fn matrix_nd_out_views(m: &MatCase, obs: &mut Obs) -> CheckResult {
     const SENT: f64 = -123456.75;
     let st = step.unsigned_abs();
     let plen = if len == 0 { 0 } else { (len - 1) * st + 1 };
-    let mut parent: Array1<MaybeUninit<f64>> = Array1::from_elem(plen, MaybeUninit::new(SENT));
+    // the view sits in the middle of a larger sentinel-filled allocation (len + 2 spare elements on
+    // either side), so that an implementation that ignores the stride or the direction writes into the
+    // padding - which is detected below - instead of outside the allocation
+    let pad = len + 2;
+    let mut parent: Array1<MaybeUninit<f64>> = Array1::from_elem(plen + 2 * pad, MaybeUninit::new(SENT));
     {
-        let view = parent.slice_mut(s![..;step]);
+        let view = parent.slice_mut(s![pad..pad + plen;step]);
         debug_assert_eq!(view.len(), len);
         // input through both driver implementations: Vec (*_to bodies) and a wrapped VecDeque
         let r: Option<Array1<f64>> = if m.c.out_buf {
@@ -172,7 +176,7 @@ fn matrix_nd_out_views(m: &MatCase, obs: &mut Obs) -> CheckResult {
         }
     }
     let all: Vec<f64> = parent.iter().map(|x| unsafe { x.assume_init() }).collect();
-    let got: Vec<f64> = parent.slice(s![..;step]).iter().map(|x| unsafe { x.assume_init() }).collect();
+    let got: Vec<f64> = parent.slice(s![pad..pad + plen;step]).iter().map(|x| unsafe { x.assume_init() }).collect();
     let fb = |v: &f64| if v.is_nan() { u64::MAX } else { v.to_bits() };
     if got.iter().map(fb).collect::<Vec<_>>() != reference.iter().map(fb).collect::<Vec<_>>() {
         return fail(format!("{}:nd-out-view", name), format!("{} written into an ndarray out view with step {} reads back {:?}, the Vec reference is {:?}", name, step, got, reference));
